@@ -14,4 +14,9 @@ MUTANTS = [
  {"id": "balance-close-without-open-ok", "kind": "break", "edits": [(P, "} else if ch == '}' && stack.pop().is_none() {\n                    return Err(PatternError::Alternate);\n                }", "} else if ch == '}' {\n                    stack.pop();\n                }")], "expect": ["D4-BALANCE"]},
  {"id": "fallthrough-true", "kind": "break", "edits": [(P, "                }\n            }\n        }\n        false\n    }\n\n    /**\n     * pkg_install contains a quick_pkg_match", "                }\n            }\n        }\n        pattern == pkg\n    }\n\n    /**\n     * pkg_install contains a quick_pkg_match")], "expect": ["D2-FALLTHROUGH"]},
  {"id": "benign-last-match-index", "kind": "benign", "edits": [(P, "if let Some(i) = pattern.rfind('{') {", "if let Some((i, _)) = pattern.match_indices('{').last() {")]},
+
+ {"id": "probe-first-open-brace", "kind": "break", "edits": [(P, "if let Some(i) = pattern.rfind('{') {", "if let Some(i) = pattern.find('{') {")], "expect": ["D1-BRACE-PAIR"]},
+ {"id": "probe-last-close-brace", "kind": "break", "edits": [(P, "let Some(n) = rest.find('}') else {", "let Some(n) = rest.rfind('}') else {")], "expect": ["D1-BRACE-PAIR"]},
+ {"id": "probe-alternatives-split-on-semicolon", "kind": "break", "edits": [(P, "for m in matches.split(',') {", "for m in matches.split(';') {")], "expect": ["D"]},
+ {"id": "probe-alternatives-splitn-two", "kind": "break", "edits": [(P, "for m in matches.split(',') {", "for m in matches.splitn(2, ',') {")], "expect": ["D"]},
 ]
